@@ -427,3 +427,167 @@ def vqe(ctx):
     ctx.search("vqe[restricted]", vqe_cases(("rhf", "rohf")), body, frac=0.5, exclusions=excl)
     ctx.search("vqe[uhf]", vqe_cases(("uhf",)), body, frac=0.3, exclusions=excl)
     ctx.search("vqe[uhf-asym]", vqe_cases(("uhf",), force_asym=True), body, frac=0.2, exclusions=excl)
+
+
+# ------------------------------------------------------------------------------------------------ part 3: histories on shared objects
+
+@st.composite
+def alt_frozen(draw, mcase, same_size):
+    """Another admissible frozen-orbital specification for the same molecule (same number of active orbitals when
+    same_size), as a list / per-spin lists."""
+    n_mos, na, nb = H.static_occ(mcase)
+    fa, fb = H.frozen_lists(mcase)
+
+    def one(n_hi, n_lo, k_now):
+        socc = list(range(n_lo, n_hi))
+        docc, virt = list(range(n_lo)), list(range(n_hi, n_mos))
+        must = list(socc)
+        if not socc:
+            if docc:
+                must.append(draw(st.sampled_from(docc)))
+            if virt:
+                must.append(draw(st.sampled_from(virt)))
+        k = k_now if same_size else draw(st.integers(max(len(must), 1), n_mos))
+        k = max(k, len(must))
+        others = [i for i in range(n_mos) if i not in must]
+        perm = list(draw(st.permutations(others))) if others else []
+        act = sorted(must + perm[: k - len(must)])
+        return [i for i in range(n_mos) if i not in act]
+
+    if not mcase["uhf"]:
+        return one(na, nb, n_mos - len(fa))
+    a = one(na, na, n_mos - len(fa))
+    b = a if draw(st.booleans()) else one(nb, nb, n_mos - len(fb))
+    return [a, b]
+
+
+@st.composite
+def mol_history_cases(draw):
+    solver = draw(st.sampled_from(["FCI", "CCSD"]))
+    mol = draw(H.molecules(max_active=5, min_active=2, refs=("rhf", "rohf") if solver == "FCI" else ("rhf", "rohf", "uhf"), frozen_prob=0.75))
+    alts = [draw(alt_frozen(mol, same_size=draw(st.integers(0, 3)) > 0)) for _ in range(draw(st.integers(1, 2)))]
+    return {"mol": mol, "solver": solver, "alts": alts, "chain": draw(st.booleans())}
+
+
+@part("history", quick=60, thorough=2000)
+def history(ctx):
+    def solve(mol, which):
+        from tangelo.algorithms.classical import FCISolver, CCSDSolver
+        ne, n_act = mol.n_active_electrons, mol.n_active_mos
+        if which == "CCSD" and (ne < 2 or (min(n_act) if mol.uhf else n_act) < 2):
+            return None
+        s = (FCISolver if which == "FCI" else CCSDSolver)(mol)
+        e = s.simulate()
+        g1, g2 = s.get_rdm()
+        if which == "CCSD":
+            cc = s.solver.cc_fragment
+            if not (cc.converged and cc.converged_lambda):
+                return None
+        return e, g1, g2
+
+    def check_mol(mol, e, g1, g2, tol, what):
+        from tangelo.toolboxes.molecular_computation.rdms import energy_from_rdms
+        e_r = mol.energy_from_rdms(g1, g2)
+        if abs(e_r - e) > tol:
+            raise Fail(f"{what}: energy_from_rdms = {e_r!r}, solver energy {e!r}", sig=f"history:{what}:energy")
+        if not mol.uhf:
+            e_f = energy_from_rdms(mol.fermionic_hamiltonian, g1, g2)
+            if abs(e_f - e) > tol:
+                raise Fail(f"{what}: rdms.energy_from_rdms(fermionic_hamiltonian) = {e_f!r}, solver energy {e!r}", sig=f"history:{what}:energy-fermionic-hamiltonian")
+
+    def body(case):
+        mcase = case["mol"]
+        mol_a = H.get_molecule(mcase, ctx.rec)
+        tol = TOL_E if case["solver"] == "FCI" else TOL_CC
+        ra = solve(mol_a, case["solver"])
+        if ra is None:
+            raise Skip("solver not applicable / not converged on the first molecule")
+        check_mol(mol_a, *ra, tol, "first-molecule")
+        labels = mol_labels(mcase, mol_a) | {"solver=" + case["solver"]}
+        parent, n_copies = mol_a, 0
+        for alt in case["alts"]:
+            spec = [list(x) for x in alt] if mcase["uhf"] else list(alt)
+            try:
+                mol_b = parent.freeze_mos(spec if (spec and (not mcase["uhf"] or spec[0] or spec[1])) else None, inplace=False)
+            except ValueError as ex:
+                if "no active electrons" in str(ex) or "fully occupied" in str(ex):
+                    labels.add("alt-refused-as-documented")
+                    continue
+                raise
+            rb = solve(mol_b, case["solver"])
+            if rb is None:
+                labels.add("alt-solver-not-applicable")
+                continue
+            n_copies += 1
+            same = (mol_b.n_active_mos == parent.n_active_mos)
+            labels.add("copy-same-active-size" if same else "copy-different-active-size")
+            # the copy contracts its own matrices with its own integrals
+            check_mol(mol_b, *rb, tol, "freeze_mos-copy")
+            if mol_b.frozen_mos is not None:
+                pad_and_check(mol_b, dict(mcase, frozen=alt), rb[1], rb[2], rb[0], tol, "history:copy")
+            else:
+                check_full_space(mol_b, mcase, rb[1], rb[2], rb[0], tol, "history:copy")
+            # ... and the molecule it was copied from is unaffected
+            check_mol(mol_a, *ra, tol, "first-molecule-after-copy")
+            if case["chain"]:
+                parent = mol_b
+                labels.add("chained-copies")
+        return n_copies > 0, labels
+
+    ctx.search("history_mol", mol_history_cases(), body, frac=0.6)
+
+    # one VQE solver, several parameter vectors in a row (repeats included)
+    @st.composite
+    def vqe_history_cases(draw):
+        c = draw(vqe_cases(("rhf", "rohf")))
+        c["ansatz"] = draw(st.sampled_from(["HEA", "HEA", "UCCSD"]))
+        c["aopts"] = {"n_layers": draw(st.integers(1, 2)), "rot_type": "euler"} if c["ansatz"] == "HEA" else {}
+        c["pool"] = [draw(H.theta_specs(allow_zero_vector=False)) for _ in range(2)]
+        c["seq"] = draw(st.lists(st.integers(0, 1), min_size=2, max_size=4))
+        return c
+
+    def body_vqe(case):
+        from tangelo.algorithms.variational import VQESolver, BuiltInAnsatze
+        mcase = case["mol"]
+        mol = H.get_molecule(mcase, ctx.rec)
+        opts = {"molecule": mol, "qubit_mapping": case["mapping"], "up_then_down": case["utd"], "ansatz": getattr(BuiltInAnsatze, case["ansatz"])}
+        if case["aopts"]:
+            opts["ansatz_options"] = dict(case["aopts"])
+        ctx.np_seed(case)
+        solver = VQESolver(opts)
+        solver.build()
+        thetas = [np.array(H.theta_vector(sp, solver.ansatz.n_var_params), dtype=float) for sp in case["pool"]]
+        labels = {f"ansatz={case['ansatz']}", f"mapping={case['mapping'].upper()}"}
+        jw = case["mapping"].upper() == "JW"
+        for pos, k in enumerate(case["seq"]):
+            th = thetas[k]
+            g1, g2 = solver.get_rdm(th, sum_spin=True)
+            psi, n = H.run_circuits([solver.ansatz.circuit], n=H.op_n_qubits(solver.qubit_hamiltonian.terms))
+            e_ref, _ = H.expectation(solver.qubit_hamiltonian.terms, psi, n)
+            e_r = mol.energy_from_rdms(g1, g2)
+            if abs(e_r - e_ref.real) > TOL_E:
+                raise Fail(f"call {pos} (theta #{k}): energy_from_rdms = {e_r!r}, <psi|H|psi> = {e_ref.real!r}", sig="history:vqe-rdm:energy")
+            if herm_defect(g1, g2) > TOL_H:
+                raise Fail(f"call {pos} (theta #{k}): spin-summed matrices are not Hermitian ({herm_defect(g1, g2)})", sig="history:vqe-rdm:hermiticity")
+            if jw:
+                s1, s2 = solver.get_rdm(th, sum_spin=False)
+                ex = fermion_expectations_jw(mol, psi, n, case["utd"])
+                d1, d2 = np.zeros_like(s1), np.zeros_like(s2)
+                for key, v in ex.items():
+                    if len(key) == 2:
+                        d1[key[0][0], key[1][0]] += v
+                    else:
+                        p, q, r, s = (x[0] for x in key)
+                        d2[p, s, q, r] += v
+                dev = max(float(np.max(np.abs(d1 - s1))), float(np.max(np.abs(d2 - s2))))
+                if dev > 1e-8:
+                    raise Fail(f"call {pos} (theta #{k}): JW spin-resolved matrices deviate by {dev} from directly evaluated <a+ a>, <a+ a+ a a>",
+                               sig="history:vqe-rdm:direct-evaluation")
+                labels.add("jw-direct")
+            if float(np.max(np.abs(np.imag(psi)))) > 1e-6:
+                labels.add("complex-amplitudes")
+        if len(set(case["seq"])) < len(case["seq"]):
+            labels.add("repeated-theta")
+        return True, labels
+
+    ctx.search("history_vqe", vqe_history_cases(), body_vqe, frac=0.4)
